@@ -124,7 +124,7 @@ int main(int argc, char * argv[], char * envp[])
       status = 0;
 
       ifstream in(global_scope->HANDLER(script_).str());
-      while (status == 0 && ! in.eof()) {
+      while (status == 0 && in.good() && ! in.eof()) {
         char line[1024];
         in.getline(line, 1023);
 
